@@ -335,6 +335,12 @@ Proof.
     destruct (a_alive x); [apply actor_exit_PI|]; assumption.
   - unfold w_exit. destruct (lookup a (actors w)) as [x|]; [|assumption].
     destruct (a_alive x), (a_stop x), (a_run x); try assumption. apply actor_exit_PI. assumption.
+  - apply stop_actor_PI. assumption.
+  - unfold w_close. destruct (lookup a (actors w)) as [x|]; [|assumption].
+    destruct (a_alive x), (a_stop x), (a_run x); try assumption.
+    assert (G : PI (actor_exit a (CStopExit a) w)) by (apply actor_exit_PI; assumption). exact G.
+  - unfold w_closed. destruct (lookup a (actors w)) as [x|]; [|assumption].
+    destruct (memN a (closing w) && negb (a_alive x)); assumption.
   - unfold finalize. destruct (fstatus w); try assumption.
     destruct (all_workers_gone w); [|assumption]. unfold PI. simpl. constructor.
 Qed.
@@ -377,19 +383,23 @@ Proof.
   - unfold curr_le1. simpl. rewrite E. simpl. lia.
 Qed.
 
+Lemma shed_after_curr t x : curr_le1 (fst (fst x)) -> curr_le1 (fst (fst (shed_after t x))).
+Proof.
+  destruct x as [[p acts] out]. unfold shed_after. intros H.
+  destruct (w_dset p) as [[limit [|]]|]; try exact H.
+  destruct (shed_oldest _ t limit (w_queue p) out). exact H.
+Qed.
+
 Lemma enqueue_job_curr t p acts out j :
   curr_le1 p -> curr_le1 (fst (fst (enqueue_job t (p, acts, out) j))).
 Proof.
   intros H. unfold enqueue_job.
   match goal with |- context [if ?b then _ else _] => destruct b end; [exact H|].
+  apply shed_after_curr.
   destruct (w_curr p) as [|k ks] eqn:E.
   - destruct (next_non_expired t (w_queue p) (accept_ev j out)) as [[[o|] q'] out'];
       apply dispatch_job_curr; exact E.
-  - destruct (w_dset p) as [[limit [|]]|].
-    + unfold curr_le1 in *. simpl. rewrite E in *. exact H.
-    + destruct (shed_oldest _ t limit (w_queue p ++ [clear_port j]) (accept_ev j out)) as [q' out'].
-      unfold curr_le1 in *. simpl. rewrite E in *. exact H.
-    + unfold curr_le1 in *. simpl. rewrite E in *. exact H.
+  - unfold curr_le1 in *. simpl. rewrite E in *. exact H.
 Qed.
 
 Lemma removeN_single k l : (length l <= 1)%nat -> memN k l = true -> removeN k l = [].
